@@ -632,10 +632,29 @@ def _xr_dataset(interp, st, args, kwargs):
         # xarray >= 2024: Dataset(<Dataset>) is not a copy constructor
         from ..interp import PyRaise
         raise PyRaise(ExcVal("TypeError", ("Passing a Dataset as data_vars to the Dataset constructor is not supported",)))
+    cd = st.deref(kwargs.get("coords")) if "coords" in kwargs else None
+    if isinstance(cd, dict):
+        for k, v in cd.items():
+            vv = st.deref(v)
+            if is_xa(vv):
+                vv = vv.fields["arr"]
+            if isinstance(vv, Arr):
+                coords[k] = vv
     if isinstance(src, dict):
         for k, v in src.items():
-            vs[k] = v
             vv = st.deref(v)
+            if isinstance(vv, tuple) and len(vv) == 2:
+                # (dims, data)
+                dims = st.deref(vv[0])
+                dims = tuple(st.deref(x) for x in (dims if isinstance(dims, (list, tuple)) else [dims]))
+                data = st.deref(vv[1])
+                if is_xa(data):
+                    data = data.fields["arr"]
+                if not isinstance(data, Arr):
+                    raise Unsupported("Dataset variable given as (dims, non-array)")
+                v = mk_xa(st, dims, data, getattr(data, "nanmask", None), {d: coords[d] for d in dims if d in coords})
+                vv = st.deref(v)
+            vs[k] = v
             if is_xa(vv):
                 coords.update(vv.fields["coords"])
     return st.alloc(Obj("Dataset", {"vars": vs, "coords": coords}), "Dataset")
